@@ -7,9 +7,12 @@ CONSTANTS
   ChunkSizes <- MCOne
   NetMayFail = FALSE
   MayLeaveLitter = FALSE
+  CloseDelimited = TRUE
   WriteInPlace = FALSE
   PersistBeforeStatusCheck = FALSE
   TruncatedIsSuccess = FALSE
+  SkipValidation = FALSE
+  FixedTempName = FALSE
   NoStaleFallback = FALSE
   AbortOnRefreshError = TRUE
 INVARIANTS StartsAnyway
